@@ -576,8 +576,9 @@ def replay(lead, inputs, obs):
         out = os.path.join(BUILD, 'replay', 'c02_replay')
         os.makedirs(os.path.dirname(out), exist_ok=True)
         cmd = ['g++', '-std=c++17', '-g', '-O0', '-w', '-fsanitize=address,undefined,float-cast-overflow', '-fno-sanitize-recover=all',
-               '-I', repo + '/include', os.path.join(VERIF, 'replay', 'c02_replay.cc')] + \
-              [os.path.join(repo, 'src', x) for x in ('nl-reader.cc', 'format.cc', 'os.cc', 'posix.cc', 'expr-info.cc')] + ['-o', out]
+               '-I', repo + '/include', '-I', repo + '/src', os.path.join(VERIF, 'replay', 'c02_replay.cc')] + \
+              [os.path.join(repo, 'src', x) for x in ('nl-reader.cc', 'format.cc', 'os.cc', 'posix.cc')] + \
+              [os.path.join(extract.generated_dir(), 'expr-info.cc'), '-o', out]
         p = subprocess.run(cmd, capture_output=True, text=True)
         if p.returncode != 0:
             return False, 'replay driver build failed: ' + p.stderr[-1500:], ' '.join(cmd)
